@@ -352,6 +352,26 @@ def run_unit(unit):
                     want, _, _ = expected_convert("binary", st[0], ns.Command, None, "pretty")
                     if ANSI.sub("", r.stdout) != want:
                         acc.violation({"cmd": "convert", "clause": "process-output-differs"}, d, "subprocess output differs from the library's rendering")
+            # standard input fed in two pieces with a pause in between (a slow producer on a pipe)
+            import time as _time
+
+            data2 = st[0] + st[1]
+            acc.count("evaluations")
+            acc.count("subprocesses")
+            acc.count("states")
+            pr = subprocess.Popen([sys.executable, "-m", "tpmstream", "convert", "--in", "binary", "--out", "binary", "-"], stdin=subprocess.PIPE, stdout=subprocess.PIPE, stderr=subprocess.PIPE, env=env)
+            _time.sleep(1.5)  # let the tool start and block in its first read
+            pr.stdin.write(data2[:7])
+            pr.stdin.flush()
+            _time.sleep(0.7)
+            pr.stdin.write(data2[7:])
+            pr.stdin.close()
+            so = pr.stdout.read()
+            se = pr.stderr.read()
+            pr.wait(timeout=120)
+            got_hex = re.sub(r"\s+", "", so.decode())
+            if pr.returncode != 0 or got_hex != data2.hex():
+                acc.violation({"cmd": "convert", "clause": "process-stdin-in-pieces"}, {"harness": "cli-subprocess", "argv": ["convert", "--in", "binary", "--out", "binary", "-"], "file": data2.hex()}, f"standard input delivered in two pieces: exit status {pr.returncode}, decoded {got_hex[:40]}... of {data2.hex()[:40]}...; stderr {se.decode()[-160:]}")
             # standard input ("-") as the file, binary and hex
             for fin, data in (("binary", st[0] + st[1]), ("hex", text.hex_text(st[0] + st[1], "lower", " ", None, "", "\n"))):
                 acc.count("evaluations")
